@@ -338,6 +338,8 @@ def gen_program(
             kind = "map"
         elif feats["loops"] and p_gate + 0.20 <= r < p_gate + 0.28:
             kind = "loop"
+        elif feats["gates"] and p_gate + 0.28 <= r < p_gate + 0.36:
+            kind = "chain"
         if kind == "fn":
             k = rng.randint(0, min(3, len(avail)))
             params = rng.sample(avail, k)
@@ -383,6 +385,18 @@ def gen_program(
             seeds += inner["seeds"]
             nodes.append(node)
             avail += inner_outs
+        elif kind == "chain":
+            # a chain of gates: outer routes to the gate inner, inner routes to a function node; all three can become
+            # runnable in the same step (their parameters are already available)
+            src = [a for a in avail if a not in lists] or own_ext
+            pa, pb, pc = rng.choice(src), rng.choice(src), rng.choice(src)
+            on, inn, wn = f"{prefix}co{i}", f"{prefix}ci{i}", f"{prefix}cw{i}"
+            t_outer = [inn] + (["@END"] if rng.random() < 0.5 else [])
+            t_inner = [wn] + (["@END"] if rng.random() < 0.7 else [])
+            nodes.append({"kind": "route", "name": on, "params": [{"name": pa}], "targets": t_outer, "default_open": rng.random() < 0.7, "decide": {"op": "mod", "choices": list(t_outer)}, "_slot": i, "blk": f"{prefix}c{i}"})
+            nodes.append({"kind": "route", "name": inn, "params": [{"name": pb}], "targets": t_inner, "default_open": rng.random() < 0.7, "decide": {"op": "mod", "choices": list(t_inner) + [None]}, "_slot": i, "blk": f"{prefix}c{i}"})
+            nodes.append({"kind": "fn", "name": wn, "params": [{"name": pc}], "outs": [f"{prefix}cwo{i}"], "_slot": i, "blk": f"{prefix}c{i}"})
+            avail.append(f"{prefix}cwo{i}")
         elif kind == "loop":
             blk = loop_block(rng, f"{prefix}L{i}", L=1 if prefix else None)
             for nd in blk["nodes"]:
@@ -397,6 +411,10 @@ def gen_program(
     # gate targets: later non-gate nodes of this graph
     for idx, g in gates:
         later = [nd["name"] for nd in nodes[idx + 1 :] if nd.get("kind") in ("fn", "graph") and not nd.get("blk")]
+        # a gate may also target a LATER GATE of this graph (gate chains)
+        later_gates = [gg["name"] for j, gg in gates if j > idx]
+        if later_gates and rng.random() < 0.35:
+            later = later + [rng.choice(later_gates)]
         if not later:
             g.update({"kind": "route", "targets": ["@END"], "decide": {"op": "const", "value": "@END"}})
             continue
@@ -515,7 +533,7 @@ def gate_targets(nd: dict) -> list[str]:
     return t
 
 
-EXC_KINDS = ["plain", "plain", "noargs", "typeerror_kw", "keyerror"]
+EXC_KINDS = ["plain", "plain", "noargs", "typeerror_kw", "keyerror", "valueerror"]
 
 
 def gen_api(rng: random.Random) -> dict:
@@ -545,3 +563,76 @@ def with_api(g: dict, api: dict | None) -> dict:
 
     walk(g2)
     return g2
+
+
+def rename_node(g: dict, old: str, new: str) -> None:
+    """Rename a node of ONE graph level everywhere that level refers to it (gate targets, decisions, entry points)."""
+
+    def sub(x: Any) -> Any:
+        if x == old:
+            return new
+        if isinstance(x, list):
+            return [sub(v) for v in x]
+        return x
+
+    for nd in g["nodes"]:
+        if nd["name"] == old:
+            nd["name"] = new
+            if nd["kind"] == "graph":
+                nd["graph"]["name"] = new
+        for key in ("targets", "when_true", "when_false", "fallback"):
+            if key in nd:
+                nd[key] = sub(nd[key])
+        d = nd.get("decide")
+        if d:
+            for key in ("choices", "then", "else", "value", "seq"):
+                if key in d:
+                    d[key] = sub(d[key])
+    if g.get("entrypoints"):
+        g["entrypoints"] = sub(g["entrypoints"])
+
+
+def add_substring_names(rng: random.Random, g: dict) -> int:
+    """Make one target's name a prefix of a sibling target's name (retry / retry_with_backoff)."""
+    n = 0
+    for nd in g["nodes"]:
+        if nd["kind"] in ("route", "ifelse") and not nd.get("blk"):
+            tg = [t for t in gate_targets(nd) if t != "@END"]
+            plain = [t for t in tg if not any(x["name"] == t and (x["kind"] != "fn" or x.get("blk")) for x in g["nodes"])]
+            if len(plain) >= 2 and rng.random() < 0.5:
+                a, b = plain[0], plain[1]
+                if not b.startswith(a):
+                    rename_node(g, b, a + "_long")
+                    n += 1
+                    break
+    return n
+
+
+ODD_NAMES = ["select", "max_iterations", "entrypoint", "values", "on_missing", "error_handling", "graph", "map_over", "clone"]
+
+
+def odd_input_names(rng: random.Random, g: dict, inputs: dict | None = None, k: int = 2) -> dict:
+    """Rename some external inputs of a DAG spec to names that look like runner options (legal input names)."""
+    import copy as _c
+
+    ext = [e for e in g.get("ext", []) if any(p["name"] == e for nd in g["nodes"] for p in nd.get("params", []))]
+    rng.shuffle(ext)
+    pool = list(ODD_NAMES)
+    rng.shuffle(pool)
+    mapping = dict(zip(ext[:k], pool))
+    if not mapping:
+        return {}
+    for nd in g["nodes"]:
+        for p in nd.get("params", []):
+            if p["name"] in mapping:
+                p["name"] = mapping[p["name"]]
+        if nd.get("rename_inputs"):
+            nd["rename_inputs"] = {mapping.get(a, a): mapping.get(b, b) for a, b in nd["rename_inputs"].items()}
+    g["ext"] = [mapping.get(e, e) for e in g["ext"]]
+    if inputs is not None:
+        for key in ("provide", "bind"):
+            if key in inputs:
+                inputs[key] = {mapping.get(a, a): v for a, v in inputs[key].items()}
+        if "omit" in inputs:
+            inputs["omit"] = [mapping.get(a, a) for a in inputs["omit"]]
+    return mapping
